@@ -40,7 +40,11 @@ def budget(tier):
     return 150000 if tier == "quick" else 3000000
 
 
-_bytes = st.binary(min_size=0, max_size=12) | st.sampled_from([b"", b"\x00", b"a\x00b", b"\xff" * 3, b"/a/b c"])
+# (lengths around the byte boundaries of the 32-bit length prefix too: 127/128/255/256 and one beyond 2^15)
+_long = st.sampled_from([127, 128, 129, 255, 256, 300, 40000]).flatmap(
+    lambda n: st.tuples(st.integers(0, 255), st.integers(0, 255)).map(lambda ab: bytes([ab[0]]) * (n - 1) + bytes([ab[1]])))
+_bytes = st.binary(min_size=0, max_size=12) | st.sampled_from([b"", b"\x00", b"a\x00b", b"\xff" * 3, b"/a/b c"]) | \
+    st.integers(0, 7).flatmap(lambda k: _long if k == 3 else st.binary(min_size=0, max_size=12))
 _nonul = st.binary(min_size=0, max_size=8).map(lambda b: b.replace(b"\x00", b"\x01")) | st.sampled_from(
     [b"", b"a", b"ab", b"*.o", b"\xff"])
 _u64 = st.sampled_from([0, 1, 2, 255, 256, 2**31, 2**32 - 1, 2**32, 2**63, 2**64 - 1]) | st.integers(0, 2**64 - 1)
